@@ -2138,6 +2138,49 @@ impl Server {
             }
             Some(RequestType::RemoveListener(ref remove)) => {
                 debug!("{} remove {:?} listener {:?}", req_id, remove.proxy, remove);
+                // The soft-stop accounting counts one slab entry per listener:
+                // it may only move for a listener this worker really has, and a
+                // listener that is still active must give its slab entry and
+                // socket back first, or a later soft stop never completes.
+                let address: std::net::SocketAddr = remove.address.into();
+                let active = match ListenerType::try_from(remove.proxy) {
+                    Ok(ListenerType::Http) => self
+                        .config_state
+                        .http_listeners
+                        .get(&address)
+                        .map(|l| l.active),
+                    Ok(ListenerType::Https) => self
+                        .config_state
+                        .https_listeners
+                        .get(&address)
+                        .map(|l| l.active),
+                    Ok(ListenerType::Tcp) => self
+                        .config_state
+                        .tcp_listeners
+                        .get(&address)
+                        .map(|l| l.active),
+                    Ok(ListenerType::Udp) => self
+                        .config_state
+                        .udp_listeners
+                        .get(&address)
+                        .map(|l| l.active),
+                    Err(_) => None,
+                };
+                let Some(active) = active else {
+                    push_queue(worker_response_error(
+                        req_id,
+                        format!("no {:?} listener to remove at {address}", remove.proxy),
+                    ));
+                    return;
+                };
+                if active {
+                    let deactivate = DeactivateListener {
+                        address: remove.address,
+                        proxy: remove.proxy,
+                        to_scm: false,
+                    };
+                    let _ = self.notify_deactivate_listener(&req_id, &deactivate);
+                }
                 // We only remove a listener that was previously added, so the
                 // base count is at least 1 — the subtraction cannot underflow.
                 debug_assert!(
